@@ -123,6 +123,28 @@ pub fn run(case: &RbCase, ctx: &mut Ctx) -> Result<Vec<&'static str>, String> {
                 }
             }
         }
+        // A limit around a ReadBuf that has no buffer yet: whatever the
+        // kernel is asked to do with it, no more than `limit` bytes may arrive.
+        if case.fill % 3 == 0 {
+            let lim = (case.fill as usize / 3) % (cap + 2);
+            script.frac = u16::MAX;
+            script.seed = 77;
+            let before = script.done.len();
+            let r = drive(&mut world, { let _s = track::scope(track::TAG_A10); afd.read(BufMut::limit(pool.get(), lim)) });
+            let delivered: usize = script.done[before..].iter().map(|d| d.1.len()).sum();
+            if delivered > lim {
+                return Err(format!("limit:unfilled-readbuf: a read into LimitedBuf(ReadBuf without a buffer, limit {lim}) let the kernel deliver {delivered} bytes"));
+            }
+            if let Ok(Ok(limited)) = r {
+                let inner = limited.into_inner();
+                if inner.len() > lim {
+                    return Err(format!("limit:unfilled-readbuf: a read into LimitedBuf(ReadBuf without a buffer, limit {lim}) returned {} bytes", inner.len()));
+                }
+                let _s = track::scope(track::TAG_A10);
+                drop(inner);
+            }
+            ctx.class("limited-unfilled-readbuf");
+        }
         script.frac = case.fill;
         script.seed = 9;
         let before = script.done.len();
